@@ -2128,3 +2128,87 @@ def m_slice_into_vec(ex, st, call):
             if isinstance(v, Agg) and v.kind == 'array':
                 return ex.ret(st, call, VecV([v.fields[i] for i in sorted(v.fields)]))
     return None
+
+
+# association-list sets (VecV with elem_ty '__set__')
+@model(r'^HashSet::insert$')
+def m_setv_insert(ex, st, call):
+    r, key = call.args
+    m = deref(ex, st, r)
+    if not (isinstance(m, VecV) and m.elem_ty == '__set__'):
+        return None
+    out = []
+    rest = st
+    for ent in m.items:
+        if rest is None:
+            break
+        hit, rest = ex.split(rest, val_eq(ent, key))
+        if hit is not None:
+            out += ex.ret(hit, call, Bool(False))
+    if rest is not None:
+        mm = deref(ex, rest, r)
+        ex.store(rest, r.addr, r.path, VecV(mm.items + (key,), '__set__'))
+        out += ex.ret(rest, call, Bool(True))
+    return out
+
+
+@model(r'^<IntoIter<.*> as Iterator>::filter$|^<vec::IntoIter<.*> as Iterator>::filter$')
+def m_into_iter_filter(ex, st, call):
+    it, f = call.args
+    if isinstance(it, Agg) and it.ty == 'IntoIter':
+        return ex.ret(st, call, Agg('iter', 'FilterIntoIter', {0: it.fields[0], 1: it.fields[1], 2: f}))
+    return None
+
+
+@model(r'^<Filter<.*> as Iterator>::collect$')
+def m_filter_collect(ex, st, call):
+    it = call.args[0]
+    if not (isinstance(it, Agg) and it.ty == 'FilterIntoIter'):
+        return None
+    items = list(it.fields[0].items[it.fields[1]:])
+    f = it.fields[2]
+    fa = st.alloc(f)      # FnMut closure called through &mut
+
+    def go(s, k, kept):
+        if k == len(items):
+            return ex.ret(s, call, VecV(kept))
+        a = s.alloc(items[k])
+
+        def cont(ex_, s2, res):
+            return two_way(ex_, s2, res.e, lambda s3: go(s3, k + 1, kept + [items[k]]), lambda s3: go(s3, k + 1, kept))
+        fv = ex.load(s, fa)
+        fname = ex.closure_fn(fv.ty)
+        fn = ex.mir.get(fname)
+        selfarg = Ref(fa) if fn.args[0][1].startswith('&') else fv
+        return ex.invoke(s, fname, [selfarg, Ref(a)], cont)
+    return go(st, 0, [])
+
+
+_prioritise({'m_setv_insert', 'm_into_iter_filter', 'm_filter_collect'})
+
+
+# map(...).collect() over concrete-length vectors
+@model(r'^<Iter<.*> as Iterator>::map$|^<IntoIter<.*> as Iterator>::map$|^<vec::IntoIter<.*> as Iterator>::map$')
+def m_concrete_map(ex, st, call):
+    it, f = call.args
+    if isinstance(it, Agg) and it.ty in ('Iter', 'IntoIter'):
+        return ex.ret(st, call, Agg('iter', 'MapAdaptor', {0: it, 1: f}))
+    return None
+
+
+@model(r'^<Map<.*> as Iterator>::collect$')
+def m_map_collect(ex, st, call):
+    ad = call.args[0]
+    if not (isinstance(ad, Agg) and ad.ty == 'MapAdaptor'):
+        return None
+    items = iter_items(ex, st, ad.fields[0])
+    f = ad.fields[1]
+
+    def go(s, k, acc):
+        if k == len(items):
+            return ex.ret(s, call, VecV(acc))
+        return ex.invoke_callable(s, f, [items[k]], lambda e_, s2, val: go(s2, k + 1, acc + [val]))
+    return go(st, 0, [])
+
+
+_prioritise({'m_concrete_map', 'm_map_collect'})
